@@ -1,3 +1,5 @@
+//go:build go1.21
+
 // Package sync is a drop-in replacement for the subset of package sync used by
 // the instrumented ipfs-cluster files.  Blocking acquisitions first pass a
 // scheduling point; everything else delegates to the real primitives, so with
@@ -43,12 +45,12 @@ func (m *Mutex) Enabled(sched.OpKind) bool {
 // RWMutex is an instrumented sync.RWMutex.
 type RWMutex struct{ m realsync.RWMutex }
 
-func (m *RWMutex) Lock()          { sched.Point(sched.OpLock, m, 1); m.m.Lock() }
-func (m *RWMutex) Unlock()        { m.m.Unlock() }
-func (m *RWMutex) RLock()         { sched.Point(sched.OpRLock, m, 1); m.m.RLock() }
-func (m *RWMutex) RUnlock()       { m.m.RUnlock() }
-func (m *RWMutex) TryLock() bool  { return m.m.TryLock() }
-func (m *RWMutex) TryRLock() bool { return m.m.TryRLock() }
+func (m *RWMutex) Lock()           { sched.Point(sched.OpLock, m, 1); m.m.Lock() }
+func (m *RWMutex) Unlock()         { m.m.Unlock() }
+func (m *RWMutex) RLock()          { sched.Point(sched.OpRLock, m, 1); m.m.RLock() }
+func (m *RWMutex) RUnlock()        { m.m.RUnlock() }
+func (m *RWMutex) TryLock() bool   { return m.m.TryLock() }
+func (m *RWMutex) TryRLock() bool  { return m.m.TryRLock() }
 func (m *RWMutex) RLocker() Locker { return m.m.RLocker() }
 
 // Enabled implements sched.Res.
@@ -87,7 +89,7 @@ func (w *WaitGroup) Done() {
 	}
 	w.w.Done()
 }
-func (w *WaitGroup) Wait()     { sched.Point(sched.OpWait, w, 1); w.w.Wait() }
+func (w *WaitGroup) Wait() { sched.Point(sched.OpWait, w, 1); w.w.Wait() }
 
 // Enabled implements sched.Res.
 func (w *WaitGroup) Enabled(sched.OpKind) bool { return w.n.Load() <= 0 }
